@@ -165,7 +165,13 @@ pub fn case_bytes(scratch: &Path, meta: usize, id: &str, seed: u64, len: usize, 
                         1 => Payload::Zeros(1 + rng.below(40) as usize),
                         2 => Payload::Hex(frame(*rng.pick(&[1u8, 2, 3, 4]), &gen_payload(rng.below(200) as usize, rng.below(100)), None, false)),
                         3 => Payload::Hex(frame(*rng.pick(&[0u8, 5, 9, 255]), &gen_payload(rng.below(50) as usize, 1), None, false)),
-                        4 => Payload::Hex(frame(1, &gen_payload(rng.below(50) as usize, 2), Some(*rng.pick(&[32761u16, 32762, 40000, 65535, 0])), false)),
+                        4 => {
+                            // hostile length fields: absolute, and relative to the room left in the block
+                            let room = (b - used % b) as i64 - 7;
+                            let rel = (room + rng.below(12) as i64 - 3).clamp(0, 65535) as u16;
+                            let lf = *rng.pick(&[32761u16, 32762, 40000, 65535, 0, rel, rel, rel]);
+                            Payload::Hex(frame(*rng.pick(&[1u8, 2, 3, 4]), &gen_payload(rng.below(50) as usize, 2), Some(lf), false))
+                        }
                         5 => Payload::Hex(frame(*rng.pick(&[1u8, 2, 3, 4]), &gen_payload(rng.below(100) as usize, 3), None, true)),
                         6 => Payload::Hex(frame(*rng.pick(&[2u8, 3, 4]), &[], None, false)),
                         7 => {
@@ -177,6 +183,19 @@ pub fn case_bytes(scratch: &Path, meta: usize, id: &str, seed: u64, len: usize, 
                     };
                     used += t.len();
                     toks.push(t);
+                }
+                if rng.chance(1, 3) {
+                    // a well-formed multi-frame entry (First, Middle*, Last) from the start of a
+                    // block, with one frame's checksum or payload damaged, followed by a Full entry
+                    toks.clear();
+                    let nmid = 1 + rng.below(4) as usize;
+                    let bad = rng.below(nmid as u64 + 2) as usize;
+                    for i in 0..(nmid + 2) {
+                        let ty = if i == 0 { 2u8 } else if i == nmid + 1 { 4 } else { 3 };
+                        let plen = if i == nmid + 1 { 1 + rng.below(500) as usize } else { b - 7 };
+                        toks.push(Payload::Hex(frame(ty, &gen_payload(plen, rng.below(1000)), None, i == bad && rng.chance(3, 4))));
+                    }
+                    toks.push(Payload::Hex(frame(1, &gen_payload(1 + rng.below(100) as usize, 5), None, false)));
                 }
                 let raw: Vec<u8> = toks.iter().flat_map(|t| t.bytes()).collect();
                 let line = format!("rawread {}", toks.iter().map(|t| t.tok()).collect::<Vec<_>>().join(" "));
